@@ -290,7 +290,10 @@ func parent(c Check, tier string, seed uint64, only string) int {
 		if shards > nsc && nsc > 0 {
 			shards = nsc
 		}
-		timeout := 20 * time.Minute
+		timeout := 6 * time.Minute
+		if tier == "thorough" {
+			timeout = 60 * time.Minute
+		}
 		if c.ShardTimeout != nil {
 			timeout = c.ShardTimeout(tier)
 		}
